@@ -61,7 +61,9 @@ pub(crate) fn cut_curve<'a>(
 
 const START_OFFSETS: [f64; 4] = [0.0, 459.0, 462.0, 1.0];
 const DURATIONS: [f64; 4] = [100.0, 200.0, 150.0, 99.5];
-const RATES: [f64; 4] = [1.0, 1.5, 0.75, 1.2];
+// 2.0 and 0.5 divide and multiply exactly, so hold-note combo under them is decided exactly; 1.2 is
+// the rate of the known finding (float round trip), the only class whose combo assertion is skipped.
+const RATES: [f64; 4] = [1.0, 2.0, 0.5, 1.2];
 
 #[derive(Clone, Copy)]
 pub(crate) struct Witness<const N: usize> {
@@ -153,7 +155,7 @@ pub(crate) fn model_and_objects<const N: usize>(map: &Beatmap) -> (Model<N>, Vec
 /// witness to the class and assert everything, so the finding is re-derived on every run and any
 /// other failure — inside or outside the classes — is still reported.
 const SKIP_NTH_BEYOND: u8 = 1; // nth(n) with n >= remaining > 0 returns Some(last)
-const SKIP_COMBO_RATE: u8 = 2; // max_combo of hold notes under a clock rate != 1 (float round trip)
+const SKIP_COMBO_RATE: u8 = 2; // max_combo of hold notes under the inexact clock rate 1.2 (float round trip)
 
 fn check_step<const N: usize>(g: &mut ManiaGradualDifficulty, w: &Witness<N>, m: &Model<N>, map: &Beatmap, skip: u8) {
     let p = w.p;
@@ -176,14 +178,14 @@ fn check_step<const N: usize>(g: &mut ManiaGradualDifficulty, w: &Witness<N>, m:
         assert!(res.is_some(), "C15,C02 mania: a value is produced while enough values remain");
         let a = res.unwrap();
         assert!(a.n_objects as usize == k, "C02,C15 mania: n_objects is the prefix length");
-        let rate_is_one = w.rate_k == 4 || w.rate_k == 0;
+        let rate_is_inexact = w.rate_k == 3;
         let mut hold_in_prefix = false;
         for i in 0..N {
             if i < k && !w.is_circle[i] {
                 hold_in_prefix = true;
             }
         }
-        let combo_known_class = !rate_is_one && hold_in_prefix;
+        let combo_known_class = rate_is_inexact && hold_in_prefix;
         if !(skip & SKIP_COMBO_RATE != 0 && combo_known_class) {
             assert!(a.max_combo == m.combo[k], "C02,C15 mania: max_combo equals the one-shot count of the prefix");
         }
